@@ -5,6 +5,7 @@ package rebase
 // C16: REBASE parsing recovers every enzyme record and decodes suppliers.
 //
 // verif:bound C16 listings with 0..1 prose lines before the supplier table, 1..3 supplier lines indented with 16 spaces (as in the distributed file) or tabs, 0..2 (quick) / 0..3 (thorough) records <1>..<8>; every field 0..2 symbolic bytes (printable ASCII without '<'; two length patterns per record: all two bytes / empty and short fields), isoschizomer lists of 0 or 2 names, 0 or 2 supplier letters per enzyme; enzyme names and supplier letters pairwise distinct
+// verif:bound C16 many-suppliers clause: one enzyme with 9 or 15 supplier letters in reverse table order
 // verif:bound C16 export-text clause: two enzymes with quotes, backslashes, tabs, <, >, & in their fields and 3+2 symbolic printable bytes, exported through the engine's JSON text layer and parsed back
 // verif:bound C16 long-line clause: one record whose isoschizomer line has 65530 / 70000 characters
 // verif:bound C16 outside the claim: 300 records, 15 supplier letters, Export text beyond the text-layer harness (3+2 symbolic bytes), Read's file handling
@@ -168,6 +169,31 @@ func Harness_C16_LongLine() {
 	vAssert(vEqStr(m["Ebb"].RecognitionSequence, "GG"), "recognition-sequence-verbatim")
 }
 
+// an enzyme sold by many suppliers (up to 15 letters in REBASE)
+func Harness_C16_ManySuppliers() {
+	ns := []int{9, 15}[vChoice(2)]
+	text := "REBASE codes for commercial sources of enzymes\n\n"
+	var names []string
+	letters := "BCEIJKMNOQRSVXY"
+	for i := 0; i < ns; i++ {
+		nm := "Supplier " + string(rune('a'+i)) + vBytes(1, c16Printable()) + " (3/21)"
+		names = append(names, nm)
+		text += "                " + letters[i:i+1] + "        " + nm + "\n"
+	}
+	// the letters in reverse table order
+	sup := ""
+	for i := ns - 1; i >= 0; i-- {
+		sup += letters[i : i+1]
+	}
+	text += "\n<1>Eaa\n<2>\n<3>CC\n<4>\n<5>o\n<6>s\n<7>" + sup + "\n<8>r\n\n"
+	m := Parse([]byte(text))
+	e, ok := m["Eaa"]
+	vAssert(ok, "entry-keyed-by-enzyme-name")
+	vAssert(len(e.CommercialAvailability) == ns, "one-supplier-per-letter")
+	for k := 0; k < ns && k < len(e.CommercialAvailability); k++ {
+		vAssert(vEqStr(e.CommercialAvailability[k], names[ns-1-k]), "supplier-letter-decoded-by-the-files-own-table")
+	}
+}
 // Export: the JSON export parses back to the same map (json by field/tag contract).
 func Harness_C16_Export() {
 	n := vChoice(vTier(3, 4))
